@@ -220,9 +220,11 @@ def run(ctx):
     ctx.count("verdicts.allowed", allowed)
     ctx.extra["pairs_compared"] = denied + allowed
     walker_part(ctx)
+    if not ctx.has_failing_input():
+        multi_item_part(ctx)
     ctx.extra["exhaustive"] = True
     ctx.notes.append("pruning of excluded directories by the walker is proved on the walker model (archived_iff); its tie to the real binary "
-                     "(trees backed up for real, path set vs model) belongs to the storage-level driver and is not part of this run yet")
+                     "(trees backed up for real, path set vs each item's own rules, with missing / overlapping earlier items) is walker_part and multi_item_part of this run")
     ctx.assumptions += ["globset's regex engine implements the regular language of each token (the parser and the token -> language "
                         "translation are modelled and compared, the engine is not)"]
 
@@ -301,6 +303,76 @@ def walker_part(ctx):
             H.report_diffs("walker-filter")
         if ctx.violations:
             break
+
+
+def multi_item_part(ctx):
+    """several items with different rule lists in one configuration, some of them impossible to back up in this run (path missing, or
+    overlapping an earlier item): every item that is backed up is filtered by ITS OWN rule list, whatever happened to the items before it"""
+    import shutil
+    import stat as _stat
+    from vlib import build, runs, slevel
+    build.ensure_vsb()
+    rng = ctx.rng
+    n = 30 if ctx.tier == "thorough" else 6
+    for k in range(n):
+        with slevel.Sandbox("c14m") as sb:
+            nitems = rng.randrange(2, 5)
+            picks = [rng.choice(WALK_FILTERS + [([], [])]) for _ in range(nitems)]
+            # neighbouring items get different rule lists
+            for i in range(1, nitems):
+                while picks[i][0] == picks[i - 1][0]:
+                    picks[i] = rng.choice(WALK_FILTERS)
+            w = runs.World(sb, rng, 3, 3, nitems=nitems, filters=[f or None for f, _ in picks])
+            w.populate(nfiles=12)
+            # the first case of a run always has its first item missing; later ones draw
+            state = []
+            for i in range(nitems):
+                r = rng.random()
+                if (k == 0 and i == 0) or (i < nitems - 1 and r < 0.35):
+                    state.append("missing")
+                elif i > 0 and r < 0.5 and state[0] == "present":
+                    state.append("overlap")
+                else:
+                    state.append("present")
+            for i, stt in enumerate(state):
+                top = os.path.join(w.src, w.items[i])
+                if stt == "missing":
+                    shutil.rmtree(top)
+                elif stt == "overlap":
+                    shutil.rmtree(top)
+                    os.symlink(os.path.join(w.src, w.items[0]), top)
+            res = w.backup(1700000000 + k)
+            ctx.count("multi.runs")
+            for stt in state:
+                ctx.count("multi.item." + stt)
+            dec = w.decode()
+            backups = [e for g in dec["groups"] for e in g["entries"] if e.get("archive", {}).get("entries") is not None]
+            if not backups:
+                ctx.violation("multi-item", "no backup was published for items %s: %s" % (state, res["errors"][:3]), {"items": state}, failing_input=False)
+                return
+            have = {bytes.fromhex(e["path_hex"]).rstrip(b"/") for e in backups[-1]["archive"]["entries"]}
+            for i, stt in enumerate(state):
+                if stt != "present":
+                    continue
+                rules = picks[i][1]
+                rootb = os.fsencode(os.path.realpath(os.path.join(w.src, w.items[i])))
+                for dp, dn, fl in os.walk(rootb):
+                    for nme in dn + fl:
+                        full = os.path.join(dp, nme)
+                        st_ = os.lstat(full)
+                        if not (_stat.S_ISREG(st_.st_mode) or _stat.S_ISDIR(st_.st_mode) or _stat.S_ISLNK(st_.st_mode)):
+                            continue
+                        rel = full[len(rootb) + 1:]
+                        parts = rel.split(b"/")
+                        want = all(allowed_by(rules, b"/".join(parts[:j + 1])) for j in range(len(parts)))
+                        got = full.lstrip(b"/") in have
+                        ctx.count("multi.paths_kept" if got else "multi.paths_excluded")
+                        if want != got:
+                            ctx.violation("multi-item", "items %s, item %d with rules %r: %r is %s the backup, but %s" % (
+                                state, i, picks[i][0], rel.decode("utf-8", "replace"), "in" if got else "missing from",
+                                "some prefix of it is denied by the item's first matching rule" if got else "every prefix of it is allowed by the item's own rules"),
+                                {"items": state, "filters": [f for f, _ in picks], "item": i, "path": rel.decode("utf-8", "replace")})
+                            return
 
 
 def replay(ctx, doc):
